@@ -179,26 +179,51 @@ fn long_size(r: &mut Rng) -> usize {
     }
 }
 
-/// every position a long client input can reach a reply from
-fn long_commands(cx: &Ctx, out: &mut Out, t: &[u8], what: &str) {
+/// every position a long client input can reach a reply from.  `pick`: None = all 14
+/// commands (thorough); Some(k) = only position class k (quick tier: the classes that matter
+/// for line-type replies, one command each, plus the two set-up commands for stored values)
+fn long_commands(cx: &Ctx, out: &mut Out, t: &[u8], what: &str, pick: Option<u64>) {
     let q = |pre: &str, post: &str| [pre.as_bytes(), t, post.as_bytes()].concat();
+    let all = pick.is_none();
+    let on = |k: u64| all || pick == Some(k);
     // command name (echoed upper-cased), graph name
-    run_cmd(cx, out, &cmd(&[t]), &format!("{}-command-name", what));
-    run_cmd(cx, out, &cmd(&[b"GRAPH.QUERY", t, b"RETURN 1"]), &format!("{}-graph-name", what));
+    if on(0) {
+        run_cmd(cx, out, &cmd(&[t]), &format!("{}-command-name", what));
+    }
+    if on(1) {
+        run_cmd(cx, out, &cmd(&[b"GRAPH.QUERY", t, b"RETURN 1"]), &format!("{}-graph-name", what));
+    }
     // the query text itself; failing queries that echo a literal
-    run_cmd(cx, out, &cmd(&[b"GRAPH.QUERY", b"default", t]), &format!("{}-query-text", what));
-    run_cmd(cx, out, &cmd(&[b"GRAPH.QUERY", b"default", &q("RETURN date('", "')")]), &format!("{}-date-literal", what));
-    run_cmd(cx, out, &cmd(&[b"GRAPH.QUERY", b"default", &q("RETURN nosuchfn('", "')")]), &format!("{}-unknown-fn", what));
-    run_cmd(cx, out, &cmd(&[b"GRAPH.QUERY", b"default", &q("MATCH (n:`", "`) RETURN n.")]), &format!("{}-syntax-error", what));
-    run_cmd(cx, out, &cmd(&[b"GRAPH.QUERY", b"default", &q("RETURN '", "' AS v, 1 +")]), &format!("{}-syntax-error", what));
-    // literal that comes back as data, stored value read back, failing query over the stored value
-    run_cmd(cx, out, &cmd(&[b"GRAPH.QUERY", b"default", &q("RETURN '", "' AS v")]), &format!("{}-literal", what));
-    run_cmd(cx, out, &cmd(&[b"GRAPH.QUERY", b"default", b"MATCH (n:C22L) DELETE n"]), &format!("{}-reset", what));
-    run_cmd(cx, out, &cmd(&[b"GRAPH.QUERY", b"default", &q("CREATE (n:C22L {born: '", "'}) RETURN n.born")]), &format!("{}-store", what));
-    run_cmd(cx, out, &cmd(&[b"GRAPH.QUERY", b"default", b"MATCH (n:C22L) RETURN n.born"]), &format!("{}-stored-value", what));
-    run_cmd(cx, out, &cmd(&[b"GRAPH.QUERY", b"default", b"MATCH (n:C22L) RETURN date(n.born)"]), &format!("{}-date-of-stored", what));
-    run_cmd(cx, out, &cmd(&[b"GRAPH.QUERY", b"default", b"MATCH (n:C22L) RETURN toInteger(n.born) + duration(n.born)"]), &format!("{}-fn-of-stored", what));
-    run_cmd(cx, out, &cmd(&[b"ECHO", t]), &format!("{}-echo", what));
+    if on(2) {
+        run_cmd(cx, out, &cmd(&[b"GRAPH.QUERY", b"default", &q("RETURN date('", "')")]), &format!("{}-date-literal", what));
+    }
+    if on(3) {
+        run_cmd(cx, out, &cmd(&[b"GRAPH.QUERY", b"default", t]), &format!("{}-query-text", what));
+    }
+    if on(4) {
+        run_cmd(cx, out, &cmd(&[b"GRAPH.QUERY", b"default", &q("RETURN nosuchfn('", "')")]), &format!("{}-unknown-fn", what));
+    }
+    if all {
+        run_cmd(cx, out, &cmd(&[b"GRAPH.QUERY", b"default", &q("MATCH (n:`", "`) RETURN n.")]), &format!("{}-syntax-error", what));
+        run_cmd(cx, out, &cmd(&[b"GRAPH.QUERY", b"default", &q("RETURN '", "' AS v, 1 +")]), &format!("{}-syntax-error", what));
+        // literal that comes back as data
+        run_cmd(cx, out, &cmd(&[b"GRAPH.QUERY", b"default", &q("RETURN '", "' AS v")]), &format!("{}-literal", what));
+    }
+    // stored value read back, failing query over the stored value
+    if on(5) {
+        run_cmd(cx, out, &cmd(&[b"GRAPH.QUERY", b"default", b"MATCH (n:C22L) DELETE n"]), &format!("{}-reset", what));
+        run_cmd(cx, out, &cmd(&[b"GRAPH.QUERY", b"default", &q("CREATE (n:C22L {born: '", "'})")]), &format!("{}-store", what));
+        if all {
+            run_cmd(cx, out, &cmd(&[b"GRAPH.QUERY", b"default", b"MATCH (n:C22L) RETURN n.born"]), &format!("{}-stored-value", what));
+        }
+        run_cmd(cx, out, &cmd(&[b"GRAPH.QUERY", b"default", b"MATCH (n:C22L) RETURN date(n.born)"]), &format!("{}-date-of-stored", what));
+        if all {
+            run_cmd(cx, out, &cmd(&[b"GRAPH.QUERY", b"default", b"MATCH (n:C22L) RETURN toInteger(n.born) + duration(n.born)"]), &format!("{}-fn-of-stored", what));
+        }
+    }
+    if all {
+        run_cmd(cx, out, &cmd(&[b"ECHO", t]), &format!("{}-echo", what));
+    }
 }
 
 /// readable command; long arguments are abbreviated (the case is replayed by seed and index)
@@ -221,7 +246,7 @@ fn run_cmd(cx: &Ctx, out: &mut Out, c: &RespValue, what: &str) {
 fn main() {
     let args = parse_args();
     quiet_panics();
-    let mut out = Out::new(&args, "From Verif Require Import Resp.", "Resp.case", "Resp.check_case", 120);
+    let mut out = Out::new(&args, "From Verif Require Import Resp.", "Resp.case", "Resp.check_case", if args.thorough { 120 } else { 40 });
     out.rule = "handler replies: PING/ECHO/INFO/GRAPH.LIST/GRAPH.DELETE/unknown commands, non-array and null \
                 arguments, invalid UTF-8 arguments, GRAPH.QUERY with 40 query templates x injected fragments \
                 (CR, LF, CRLF, 'a CRLF b', CRLF '+OK' CRLF, CRLF '$-1' CRLF) placed in the command name, graph name, \
@@ -371,20 +396,29 @@ fn main() {
             (700, vec![(true, 10, &b"\r\n+OK\r\n"[..])]),
         ] {
             let t = long_text(&mut r, size, &at);
-            long_commands(&cx, &mut out, &t, "long-fixed");
+            if args.thorough {
+                long_commands(&cx, &mut out, &t, "long-fixed", None);
+            } else {
+                // quick: the positions whose reply is a line that echoes the input
+                for k in [0, 1, 2, 5] {
+                    long_commands(&cx, &mut out, &t, "long-fixed", Some(k));
+                }
+            }
         }
-        let n_long_cmd = if args.thorough { 40 } else { 10 };
+        // quick tier: sizes up to 2000 keep the case files small
+        let n_long_cmd = if args.thorough { 40 } else { 30 };
         for c in 0..n_long_cmd {
             let mut r = Rng::for_case(args.seed, 6_000_000 + c);
-            let size = long_size(&mut r);
+            let size = if args.thorough { long_size(&mut r) } else { long_size(&mut r).min(r.range(1100, 2000) as usize) };
             let t = long_input(&mut r, size);
-            long_commands(&cx, &mut out, &t, "long");
+            let pick = if args.thorough { None } else { Some(r.below(6)) };
+            long_commands(&cx, &mut out, &t, "long", pick);
         }
         // line-type values of those sizes straight through encode (alone and nested)
-        let n_long_val = if args.thorough { 800 } else { 160 };
+        let n_long_val = if args.thorough { 800 } else { 30 };
         for c in 0..n_long_val {
             let mut r = Rng::for_case(args.seed, 7_000_000 + c);
-            let size = long_size(&mut r);
+            let size = if args.thorough { long_size(&mut r) } else { long_size(&mut r).min(r.range(1100, 2000) as usize) };
             let text = String::from_utf8(long_input(&mut r, size)).expect("long_input keeps UTF-8");
             let line = match r.below(3) {
                 0 => RespValue::SimpleString(text),
